@@ -106,6 +106,11 @@ def arg_edits(g, rng, n):
         lambda a, b: [defgen.ident(a), defgen.Tok("p", "/"), defgen.ident("crate"), defgen.Tok("p", "::"), defgen.ident(b)],
         lambda a, b: [defgen.ident("other"), defgen.Tok("p", "::"), defgen.ident(a), defgen.Tok("p", "*"), defgen.ident("m"),
                       defgen.Tok("p", "::"), defgen.ident(b)],
+        # more than ONE argument: a well-formed derivation followed by a comma and anything (or nothing)
+        lambda a, b: [defgen.ident(a), defgen.Tok("p", "*"), defgen.ident(b), defgen.COMMA],
+        lambda a, b: [defgen.ident(a), defgen.Tok("p", "*"), defgen.ident(b), defgen.COMMA, defgen.ident(b), defgen.Tok("p", "*"), defgen.ident(a)],
+        lambda a, b: [defgen.ident(a), defgen.Tok("p", "/"), defgen.ident(b), defgen.COMMA, defgen.ident(a)],
+        lambda a, b: [defgen.ident(a), defgen.Tok("p", "*"), defgen.ident(b), defgen.COMMA, defgen.number("42")],
         # a leading `::`, generic arguments on an operand (a path with ONE segment that is still not an identifier)
         lambda a, b: [defgen.Tok("p", "::"), defgen.ident(a), defgen.Tok("p", "*"), defgen.ident(b)],
         lambda a, b: [defgen.ident(a), defgen.Tok("p", "::"), defgen.Tok("p", "<"), defgen.ident("f64"), defgen.Tok("p", ">"),
